@@ -273,7 +273,7 @@ func (s *sim) streamer(ctx context.Context, desc *grpc.StreamDesc, cc *grpc.Clie
 			}
 		}
 		rq, _, ok := grpcgcp.VerifPeekGCPContext(ctx)
-		if !ok || rq != want {
+		if !ok || !sameMsg(rq, want) {
 			s.createErr = kern.Push(s.createErr, errors.New("first-message"))
 		}
 	}
@@ -401,6 +401,55 @@ func (s *sim) run(src *simkit.Source, logOn bool) {
 
 type msg struct{ N int }
 
+// vmsg is passed BY VALUE and is not comparable (it holds a slice), like a
+// []byte frame with a raw codec: the wrapper may not compare messages.
+type vmsg struct {
+	N   int
+	Pad []int
+}
+
+// msgN returns the sequence number a message carries, whatever its shape.
+//
+//go:norace
+func msgN(m interface{}) (int, bool) {
+	switch x := m.(type) {
+	case *msg:
+		if x == nil {
+			return 0, false
+		}
+		return x.N, true
+	case []byte:
+		if len(x) < 2 {
+			return 0, false
+		}
+		return int(x[0]) | int(x[1])<<8, true
+	case vmsg:
+		return x.N, true
+	}
+	return 0, false
+}
+
+// sameMsg: identity of two messages without ever comparing interface values of
+// non-comparable dynamic types.
+//
+//go:norace
+func sameMsg(a, b interface{}) bool {
+	switch x := a.(type) {
+	case *msg:
+		y, ok := b.(*msg)
+		return ok && x == y
+	case []byte:
+		y, ok := b.([]byte)
+		return ok && len(x) > 0 && len(x) == len(y) && &x[0] == &y[0]
+	case vmsg:
+		y, ok := b.(vmsg)
+		return ok && x.N == y.N
+	case nil:
+		return b == nil
+	}
+	return false
+}
+
 type sendRec struct {
 	t *kern.Task
 	m interface{}
@@ -411,7 +460,15 @@ func (s *sim) exec(o Op) {
 	switch o.K {
 	case OpSend:
 		s.sendSeq++
-		m := &msg{N: s.sendSeq}
+		var m interface{} = &msg{N: s.sendSeq}
+		switch s.sendSeq % 5 {
+		case 3:
+			m = []byte{byte(s.sendSeq), byte(s.sendSeq >> 8), 0}
+			s.res.Count("fault:non_comparable_message", 1)
+		case 4:
+			m = vmsg{N: s.sendSeq, Pad: []int{1}}
+			s.res.Count("fault:non_comparable_message", 1)
+		}
 		s.res.Count("op:send", 1)
 		s.op("send", o.Task%2, m, func() error {
 			s.sending = kern.Push(s.sending, sendRec{t: s.k.Me(), m: m})
@@ -670,17 +727,17 @@ func (s *sim) order() {
 	}
 	last := map[int]int{}
 	for _, r := range s.reached {
-		m, ok := r.msg.(*msg)
+		n, ok := msgN(r.msg)
 		if !ok {
 			s.vio("C12", "message-changed", "", fmt.Sprintf("underlying stream saw %T", r.msg))
 			return
 		}
 		if r.kind == "send" {
-			if prev, ok := last[r.task]; ok && m.N < prev {
-				s.vio("C12", "send-order", "", fmt.Sprintf("task %d: message %d reached the stream after %d", r.task, m.N, prev))
+			if prev, ok := last[r.task]; ok && n < prev {
+				s.vio("C12", "send-order", "", fmt.Sprintf("task %d: message %d reached the stream after %d", r.task, n, prev))
 				return
 			}
-			last[r.task] = m.N
+			last[r.task] = n
 		}
 	}
 	// every returned successful op reached the stream exactly once
@@ -696,7 +753,7 @@ func (s *sim) order() {
 		}
 		n := 0
 		for _, r := range s.reached {
-			if r.msg == po.msg {
+			if sameMsg(r.msg, po.msg) {
 				n++
 			}
 		}
